@@ -3,7 +3,7 @@ CONSTANTS
   AttrNames = {"a", "b", "c", "at", "it"}
   MaxAttrs = 2
   MaxRows = 2
-  Depth = 2
+  Depth = 3
   Fork = FALSE
 INVARIANTS TypeOK
 CHECK_DEADLOCK FALSE
